@@ -180,7 +180,7 @@ Attach(s, cp) ==
   ELSE s
 
 \* zwWrap: whether a combining mark at the pending-wrap column wraps first
-\* (freedom point of C04; the operational specification uses FALSE)
+\* (freedom point of C04; the operational specification uses TRUE, as the code does)
 DrawChar(s, cp0, wm, zwWrap) ==
   LET cp == Translate(ActiveTable(s), cp0)
       w  == W(wm, cp)
@@ -207,7 +207,7 @@ DrawChar(s, cp0, wm, zwWrap) ==
 
 DoDrawZ(s, text, wm, zwWrap) ==
   LET r == FoldLeft(LAMBDA acc, cp : DrawChar(acc, cp, wm, zwWrap), s, text) IN MarkDirty(r, {r.y})
-DoDraw(s, text, wm) == DoDrawZ(s, text, wm, FALSE)
+DoDraw(s, text, wm) == DoDrawZ(s, text, wm, TRUE)
 
 -----------------------------------------------------------------------------
 (* rendition, charsets, save/restore, modes, reset, resize                   *)
@@ -350,7 +350,7 @@ ApplyZ(s, ev, zwWrap) ==
     [] op = "cleardirty" -> [s EXCEPT !.dirty = {}]
     [] op \in {"bel", "da", "display"} -> s
     [] OTHER          -> s
-Apply(s, ev) == ApplyZ(s, ev, FALSE)
+Apply(s, ev) == ApplyZ(s, ev, TRUE)
 
 KnownOps == {"draw","cuu","cud","cuf","cub","cnl","cpl","cha","vpa","cup","bs","cr","ht","hts","tbc",
              "ind","lf","ri","il","dl","decstbm","ich","dch","ech","el","ed","sgr","sm","rm","decsc",
